@@ -12,7 +12,7 @@ PROJ = "cron"
 
 QUICK_ZONES = ["America/New_York", "Europe/Berlin", "Australia/Lord_Howe", "Australia/Sydney", "Asia/Tehran",
                "America/St_Johns", "Pacific/Apia", "Africa/Casablanca", "America/Sao_Paulo", "Asia/Kolkata",
-               "Europe/London", "Pacific/Chatham"]
+               "Europe/London", "Pacific/Chatham", "Antarctica/Casey", "America/Juneau", "Antarctica/Troll"]
 
 
 def genparams():
